@@ -126,7 +126,7 @@ pub fn classify(lay: &Layout, raw: u32) -> FatVal {
             1 => FatVal::Reserved,
             0x0FFF_FFF7 => FatVal::Bad,
             0x0FFF_FFF8..=0x0FFF_FFFF => FatVal::Eoc,
-            0x0FFF_FFF0..=0x0FFF_FFF6 => FatVal::Reserved,
+            n if (0x0FFF_FFF0..=0x0FFF_FFF6).contains(&n) && !lay.in_range(n) => FatVal::Reserved,
             n => FatVal::Next(n),
         }
     } else {
@@ -135,7 +135,9 @@ pub fn classify(lay: &Layout, raw: u32) -> FatVal {
             1 => FatVal::Reserved,
             0xFFF7 => FatVal::Bad,
             0xFFF8..=0xFFFF => FatVal::Eoc,
-            0xFFF0..=0xFFF6 => FatVal::Reserved,
+            // 0xFFF0..=0xFFF6 are ordinary cluster numbers on the largest FAT16
+            // volumes (up to 65524 clusters => highest cluster 0xFFF5)
+            n if (0xFFF0..=0xFFF6).contains(&n) && !lay.in_range(n) => FatVal::Reserved,
             n => FatVal::Next(n),
         }
     }
@@ -465,6 +467,7 @@ pub struct Walk {
     pub owners: HashMap<u32, Vec<String>>,
     pub dirs_visited: usize,
     pub truncated: bool,
+    pub truncated_why: String,
 }
 
 pub fn walk(img: &dyn Img, fv: &FatView, pending: &[Pending]) -> Walk {
@@ -472,6 +475,7 @@ pub fn walk(img: &dyn Img, fv: &FatView, pending: &[Pending]) -> Walk {
     let mut owners: HashMap<u32, Vec<String>> = HashMap::new();
     let mut visited: BTreeSet<u32> = BTreeSet::new();
     let mut truncated = false;
+    let mut why = String::new();
     let listing = list_dir(img, fv, DirLoc::Root);
     if lay.fat32 {
         for c in &listing.chain {
@@ -491,12 +495,13 @@ pub fn walk(img: &dyn Img, fv: &FatView, pending: &[Pending]) -> Walk {
         children: vec![],
     };
     let mut budget: usize = 20000;
-    fill_children(img, fv, &mut root, pending, &mut owners, &mut visited, 0, &mut truncated, &mut budget);
+    fill_children(img, fv, &mut root, pending, &mut owners, &mut visited, 0, &mut truncated, &mut budget, &mut why);
     Walk {
         root,
         owners,
         dirs_visited: visited.len(),
         truncated,
+        truncated_why: why,
     }
 }
 
@@ -511,6 +516,7 @@ fn fill_children(
     depth: u32,
     truncated: &mut bool,
     budget: &mut usize,
+    why: &mut String,
 ) {
     let lay = fv.lay;
     let slots: Vec<DSlot> = dir.listing.as_ref().unwrap().slots.clone();
@@ -523,6 +529,7 @@ fn fill_children(
         }
         if *budget == 0 {
             *truncated = true;
+            *why = "more than 20000 entries".into();
             return;
         }
         *budget -= 1;
@@ -558,9 +565,12 @@ fn fill_children(
         if is_dir && lay.in_range(first) {
             if depth >= 12 || !visited.insert(first) {
                 *truncated = true;
+                if why.is_empty() {
+                    *why = format!("directory {} (cluster {}) is deeper than 12 levels or its cluster is also the start of another directory", node.path, first);
+                }
             } else {
                 node.listing = Some(list_dir(img, fv, DirLoc::Cluster(first)));
-                fill_children(img, fv, &mut node, pending, owners, visited, depth + 1, truncated, budget);
+                fill_children(img, fv, &mut node, pending, owners, visited, depth + 1, truncated, budget, why);
             }
         }
         dir.children.push(node);
@@ -586,7 +596,7 @@ fn v(code: &'static str, detail: String) -> Viol {
 pub fn check_tree(w: &Walk, lay: &Layout, mode: Mode) -> Vec<Viol> {
     let mut out = Vec::new();
     if w.truncated {
-        out.push(v("walk-truncated", "directory graph is cyclic, too deep or too large".into()));
+        out.push(v("walk-truncated", format!("directory graph is cyclic, too deep or too large: {}", w.truncated_why)));
     }
     // cross links
     let mut cl: Vec<(&u32, &Vec<String>)> = w.owners.iter().filter(|(_, o)| o.len() > 1).collect();
